@@ -90,6 +90,17 @@ def r1(ctx, R):
         after = seq[i + 1] if i + 1 < len(seq) else None
         blank_after = after is not None and after[0] in rex.REPEATS and after[1][0] >= 1 and rex.atom_chars(*rex.items(after[1][2])[0]) == frozenset(" ")
         okl = digits and blank_after
+        # the same pattern strips labels from free-form statements (any indentation) and fixed-form ones:
+        # the blanks in front of the digits are unbounded, and at least the five digits of a label fit
+        import re._constants as _rc
+
+        before = seq[i - 1] if i > 0 else None
+        lead_unbounded = before is not None and before[0] in rex.REPEATS and before[1][0] == 0 and before[1][1] == _rc.MAXREPEAT and rex.atom_chars(*rex.items(before[1][2])[0]) == frozenset(" ")
+        digits_fit = digits and (inner[0][1][1] == _rc.MAXREPEAT or inner[0][1][1] >= 5)
+        if okl and not (lead_unbounded and digits_fit):
+            R.violation("C14.R1", "FRegex", "LINE_LABEL reach", loc(rx_.rel, rx_.node), f"LINE_LABEL = {rx_.text!r} only finds a label behind a bounded number of blanks" + ("" if digits_fit else " / fewer than five digits") + ": the pattern is applied to free-form statements as well, where a label may be indented arbitrarily - a labelled DO closed by an indented `20 continue` stays open in the free-form rendering while the fixed-form twin closes it")
+        elif okl:
+            R.ok("C14.R1", "FRegex", "LINE_LABEL reach", loc(rx_.rel, rx_.node), "any indentation, labels of five digits or more")
     if okl:
         R.ok("C14.R1", "FRegex", "LINE_LABEL", loc(rx_.rel, rx_.node), "a run of digits followed by at least one blank")
     else:
